@@ -22,6 +22,11 @@ func (e *Engine) globalInit(s *State, g *ssa.Global) Value {
 	if !e.globalNeverWritten(g) {
 		return nil
 	}
+	if mt, ok := g.Type().(*types.Pointer).Elem().Underlying().(*types.Map); ok {
+		if cm := e.constMapOf(g); cm != nil {
+			return &ConstMapV{M: cm, Name: g.Name(), T: mt}
+		}
+	}
 	for i, n := range spec.Names {
 		if n.Name != g.Name() || i >= len(spec.Values) {
 			continue
